@@ -28,7 +28,7 @@ func init() {
 		}
 		c.R.AddCount("states", res.Distinct)
 		c.R.AddCount("transitions", res.Generated)
-		rounds := c.pick(1, 5)
+		rounds := c.pick(1, 15)
 		for r := 0; r < rounds; r++ {
 			verd := filepath.Join(dir, fmt.Sprintf("v%d.ndjson", r))
 			if o, err := c.S.HRun(20*time.Minute, "anyutil-replay", "--in", exp, "--out", verd, "--seed", fmt.Sprint(c.Seed*10+int64(r))); err != nil {
